@@ -124,6 +124,17 @@ def corpus(ctx):
     out.append(roundtrip_session([3], rng, ["texts", "json"], prefill=True, family="prefilled-target"))
     out.append(roundtrip_session([0], rng, ["texts", "json"], m=4, family="free-table-side"))
     out.append(roundtrip_session([0, 1], rng, ["texts", "json"], m=7, family="free-table-side"))
+    # one location receives a SECOND device's parameters after it was loaded from once: the next load returns the second device's
+    for lay, fmt in (([0, 1, 2], "json"), ([4], "json"), ([0, 3], "texts"), ([2], "texts")):
+        L, m = len(lay), max(lay) + 1
+        acts = [{"a": "new", "id": "a", "nq": L, "layout": lay}, set_action("a", valid_fields(L, m, rng, "calib"), {"json": {"dev": "first"}}),
+                {"a": "new", "id": "b", "nq": L, "layout": lay}, set_action("b", valid_fields(L, m, rng, "calib"), {"json": {"dev": "second"}}),
+                {"a": "save", "id": "a", "fmt": fmt, "loc": "A"},
+                {"a": "new", "id": "t1", "nq": L, "layout": lay}, {"a": "load", "id": "t1", "fmt": fmt, "loc": "A"}, {"a": "eq", "x": "t1", "y": "a"},
+                {"a": "save", "id": "b", "fmt": fmt, "loc": "A"},
+                {"a": "new", "id": "t2", "nq": L, "layout": lay}, {"a": "load", "id": "t2", "fmt": fmt, "loc": "A"}, {"a": "eq", "x": "t2", "y": "b"},
+                {"a": "load", "id": "t1", "fmt": fmt, "loc": "A"}, {"a": "eq", "x": "t1", "y": "b"}]
+        out.append(sess(acts, ["A"], "second-device-at-one-location"))
     # missing files: each single file, a few subsets; new and already loaded targets
     for lay in ([0, 1, 2], [4]):
         L = len(lay)
